@@ -444,3 +444,8 @@ func FixedInputs(t *testing.T, property, target string, inputs map[string][]byte
 		}
 	}
 }
+
+// WriteFailure writes a failing case to $VERIF_CASEFILE (for fixed, non-generated cases).
+func WriteFailure(property string, c any, errText string) {
+	writeCase(os.Getenv("VERIF_CASEFILE"), property, c, errText)
+}
